@@ -160,6 +160,7 @@ pub fn lanes_for(prop: &str, tier: &str, seed: u64) -> Vec<Scenario> {
         "C13" => {
             v.extend(gen::lane_bytes(seed));
             v.extend(gen::lane_big(seed));
+            v.extend(gen::lane_big_stdin(seed));
             v.extend(gen::lane_fates(Tier::Lib, seed));
             v.extend(gen_cli::lane_random(Tier::Lib, seed, n_rand_lib, "C13"));
             v.extend(gen_cli::lane_cli_bytes(seed, if thorough { 400 } else { 40 }));
